@@ -405,6 +405,9 @@ def dval_float(d):
     return -float(dd)
 
 
+CELLS = {}          # kinds of cells compared by the correspondence check (coverage)
+
+
 def close(x, y, angle):
     if angle:
         return wrap_err(x, y) <= ANG_TOL
@@ -440,6 +443,7 @@ def compare_case(case, enc):
         if list(impl.index) != want:
             return f"labels: implementation {list(impl.index)} model {want}"
         for c, d, x in zip(case['cols'], cells, impl.values):
+            CELLS['series:' + d[0]] = CELLS.get('series:' + d[0], 0) + 1
             if not close(float(x), dval_float(d), d[0] == 'DA'):
                 return f"label {c}: implementation {float(x)!r} model {dval_float(d)!r} ({d[0]})"
         return None
@@ -470,6 +474,7 @@ def compare_case(case, enc):
                     return f"cell kind at t={float(t)} column {nm}: model {d[0]}"
                 y = val_float(d)
                 ang = d[0] == 'A'
+            CELLS[k + ':' + d[0]] = CELLS.get(k + ':' + d[0], 0) + 1
             if not close(float(vals[i, j]), y, ang):
                 return (f"value at t={float(t)} column {nm}: implementation {float(vals[i, j])!r} "
                         f"model {y!r}")
@@ -1039,7 +1044,7 @@ def check(r):
     cases = corpus_corr_cases() + (gen_corr_cases(rng, 120, 50, 40) if quick else gen_corr_cases(rng, 1500, 500, 300))
     nbad = correspondence(r, cases, dist)
     r.coverage['distribution'] = dist
-    r.coverage['correspondence'] = dict(cases=len(cases), disagreements=nbad)
+    r.coverage['correspondence'] = dict(cases=len(cases), disagreements=nbad, cells_compared=dict(CELLS))
     r.log(f"correspondence: {len(cases)} cases, {nbad} disagreement(s)")
 
     cnt = {}
@@ -1050,7 +1055,9 @@ def check(r):
     r.coverage['statement_tests'] = dict(runs=cnt, failures_other_than_known_findings=nreal)
     r.log(f"statement tests: {cnt}; {nreal} failure(s) other than known findings")
     if r.tier == 'thorough':
-        r.hygiene()
+        r.hygiene('Props/C18.v')
+        if hasattr(r, 'coqchk'):
+            r.coqchk('Props/C18.v')
     # the driver calls falsify() only when no violation at all was recorded; known findings are
     # always recorded here, so call it ourselves when something broke and nothing concrete is known
     if r.breaks and nreal == 0:
